@@ -415,7 +415,7 @@ Definition mirror_block (bg : bool) (addr : Z) (ws : list Z) (temps : list (list
       | Some b, Some sl =>
           if negb (is_control b) || is_control sl then None else
           match okc (pre_graph b addr), okc (lift_plain bg sl (addr + 4) (nth 1 temps [])), okc (post_graph b addr) with
-          | Some p, Some s, Some q => Some ([(addr, p); (addr + 4, s); (addr + 1, q)], merge_succs (succs_of b addr))
+          | Some p, Some s, Some q => Some ([(addr, p); (addr + 2, s); (addr + 1, q)], merge_succs (succs_of b addr))   (* keys: branch A, slot A + 2, branch graph A + 1; the slot's instructions carry address A + 4 *)
           | _, _, _ => None
           end
       | _, _ => None
